@@ -2,6 +2,7 @@
 mod c04;
 mod c11;
 mod c17;
+mod c19;
 mod http;
 mod loopback;
 mod sched;
@@ -20,6 +21,7 @@ fn main() {
         "c05" => rt.block_on(c04::run(&args, &mut rep, "C05")),
         "c11" => rt.block_on(c11::run(&args, &mut rep)),
         "c17" => rt.block_on(c17::run(&args, &mut rep)),
+        "c19" => rt.block_on(c19::run(&args, &mut rep)),
         "c15http" => rt.block_on(c11::run_c15_http(&args, &mut rep)),
         other => {
             eprintln!("vnet: unknown check {}", other);
